@@ -8,7 +8,7 @@ from hypothesis import strategies as st
 
 from .. import models as M
 from .. import rulespace as RS
-from ..drive import eval_rule, make_evaluable
+from ..drive import eval_rule, make_evaluable, reuse_aware, warmup
 
 ID = "C11"
 MOD = __name__
@@ -18,7 +18,8 @@ RULE_TEXT = (
     "over the tree's names (anchored, bare prefix, alternation, character class, suffix, no-match) on the subject or the "
     "object side x 3 opposite-side names x 12 shapes: compact rule have_name_matching(rx) vs are_named(expansion), "
     "expansion computed by the harness with re.match over the module list; no match must raise a non-assertion error. "
-    "Random part: Hypothesis trees with regexes / partial names built from the tree's own names (prefix-colliding "
+    "Second exhaustive part: the batch law on T4 for every subject set and object set of 1-2 modules (overlapping and "
+    "related sets included) over all import relations with <= 2 (thorough 4) edges. Random part: Hypothesis trees with regexes / partial names built from the tree's own names (prefix-colliding "
     "siblings), and batches of 1-3 subjects and objects incl. related modules compared with the conjunction of "
     "single-subject (and, for plain should/should_not, single-object) rules. Partial names are expanded with the "
     "harness's own glob semantics, not with the repository's converter. Non-trivial: the expansion has >= 2 modules or "
@@ -95,6 +96,7 @@ def compare_batch(ev, tree, imports, shape, subj, obj) -> dict:
     return {"violations": viols, "nontrivial": big and touched, "labels": ["batch", rel, "verdict=" + batch]}
 
 
+@reuse_aware
 def check_case(spec: dict) -> dict:
     tree, imports = spec["tree"], [tuple(x) for x in spec["imports"]]
     ev = make_evaluable(tree, imports)
@@ -121,15 +123,51 @@ def exh_shard(arg, stt, deadline) -> None:
             return
         i += 1
         ev = make_evaluable(tree, imports)
-        for rx in T4_REGEXES:
-            for side in ("subj", "obj"):
-                for other in others:
+        warm = RS.T4_DECOY if i % 4 == 2 else None
+        with warmup(warm):
+            for rx in T4_REGEXES:
+                for side in ("subj", "obj"):
+                    for other in others:
+                        for shape in RS.SHAPES:
+                            res = compare_compact(ev, tree, imports, shape, side, "regex", rx, other, exps[rx])
+                            spec = {"mode": "compact", "tree": tree, "imports": imports, "shape": list(shape), "side": side,
+                                    "kind": "regex", "pattern": rx, "other": other}
+                            res["labels"] = res["labels"][1:]
+                            if warm:
+                                spec["warm"] = warm
+                                res["labels"].append("reused-rule-object")
+                            stt.record(spec, res, enumerated=True, sample=(i % 53 == 1 and shape == RS.SHAPES[3] and side == "obj"))
+
+
+def batch_shard(arg, stt, deadline) -> None:
+    """Batch law on T4: every subject set and object set of 1-2 non-root modules (overlapping and related sets included)
+    x filter kinds x 12 shapes x every import relation with at most max_edges edges."""
+    from itertools import combinations
+
+    kinds, shard, nshards, max_edges = arg
+    tree = RS.T4
+    cand = M.candidate_edges(tree, allow_root_target=False, root=tree[0])
+    names = [m for m in tree if m != tree[0]]
+    sets_ = [list(c) for k in (1, 2) for c in combinations(names, k)]
+    i = 0
+    for imports in RS.graphs_of(cand, shard, nshards, max_edges):
+        if RS.timed_out(deadline, i, 2):
+            stt.truncated = True
+            return
+        i += 1
+        ev = make_evaluable(tree, imports)
+        for S in sets_:
+            for O in sets_:
+                if len(S) == 1 and len(O) == 1:
+                    continue
+                for ks, ko in kinds:
+                    subj, obj = {"kind": ks, "names": S, "as_str": False}, {"kind": ko, "names": O, "as_str": False}
                     for shape in RS.SHAPES:
-                        res = compare_compact(ev, tree, imports, shape, side, "regex", rx, other, exps[rx])
-                        spec = {"mode": "compact", "tree": tree, "imports": imports, "shape": list(shape), "side": side,
-                                "kind": "regex", "pattern": rx, "other": other}
-                        res["labels"] = res["labels"][1:]
-                        stt.record(spec, res, enumerated=True, sample=(i % 53 == 1 and shape == RS.SHAPES[3] and side == "obj"))
+                        res = compare_batch(ev, tree, imports, shape, subj, obj)
+                        spec = {"mode": "batch", "tree": tree, "imports": imports, "shape": list(shape), "subj": subj, "obj": obj}
+                        if set(S) & set(O):
+                            res["labels"] = res["labels"] + ["subject-also-object"]
+                        stt.record(spec, res, enumerated=True, sample=(i % 41 == 1 and shape == RS.SHAPES[5] and len(S) == 2 and S == O))
 
 
 # ------------------------------------------------------------------------------------- random
@@ -177,6 +215,16 @@ def glob_for(draw, tree):
 
 @st.composite
 def cases(draw):
+    spec = draw(plain_cases())
+    if draw(st.integers(0, 2)) == 0:
+        # the rule objects (compact and expanded alike) are applied to another architecture first, in which a regex or
+        # partial name matches other modules
+        spec["warm"] = draw(RS.decoys(spec["tree"]))
+    return spec
+
+
+@st.composite
+def plain_cases(draw):
     tree = draw(RS.trees(root="q", max_modules=12))
     shape = list(draw(st.sampled_from(RS.SHAPES)))
     mode = draw(st.sampled_from(["compact", "compact", "batch"]))
@@ -211,4 +259,10 @@ def run(ctx) -> None:
     max_edges = 4 if ctx.tier == "quick" else None
     ctx.exhaustive("T4-regex-vs-expansion", MOD, "exh_shard", [("T4", i, nsh, max_edges) for i in range(nsh)],
                    f"T4: import relations ({'<= 4 edges' if max_edges else 'all 2048'}) x {len(T4_REGEXES)} regexes x 2 sides x 3 opposite names x 12 shapes")
+    bk = [(("named", "named"), ("sub", "sub")), (("named", "sub"), ("sub", "named"))]
+    be = 2 if ctx.tier == "quick" else 4
+    ctx.exhaustive("T4-batches-vs-single-subjects", MOD, "batch_shard", [(k, i, 16, be) for k in bk for i in range(16)],
+                   f"T4: import relations with <= {be} edges x subject sets x object sets (1-2 non-root modules each, overlapping and "
+                   "related sets included) x 4 filter-kind pairs x 12 shapes: batch verdict vs conjunction of single-subject rules "
+                   "(and of single-object rules for plain should / should_not)")
     ctx.random("random-regex-partial-batch", MOD, "strategy", "check_case", 12000 if ctx.tier == "quick" else 250000)
